@@ -119,3 +119,34 @@ def ambiguous_stack_pda(rng):
         delta.append(['q', a, e, [['q', e]]])
     Q = ['s', 'm', 'p', 'r', 'q']
     return {'kind': 'pda', 'Q': Q, 'Sigma': [a, b], 'Gamma': gamma, 'delta': delta, 'q0': 's', 'F': ['q'], 'eps': e}
+
+
+def chain_pda(rng):
+    """Reading a letter leads to several configurations at once (dead siblings included); from one of them a long chain
+    of epsilon moves - through states, or through a counter on the stack - leads to the accepting configuration.  The
+    whole closure is finite, so a limit of exactly its size must still find the end of the chain, however the work is
+    divided among the start configurations."""
+    e = 'ε'
+    L = rng.randint(3, 14)
+    sib = rng.randint(1, 3)
+    Q = ['s0'] + ['d%d' % i for i in range(sib)] + ['c%d' % i for i in range(L + 1)] + ['f']
+    first = [['d%d' % i, e] for i in range(sib)] + [['c0', e]]
+    rng.shuffle(first)
+    delta = [['s0', 'a', e, first]]
+    style = rng.choice(['states', 'push', 'push-pop'])
+    for i in range(L):
+        if style == 'states':
+            delta.append(['c%d' % i, e, e, [['c%d' % (i + 1), e]]])
+        elif style == 'push':
+            delta.append(['c%d' % i, e, e, [['c%d' % (i + 1), 'x']]])
+        else:
+            delta.append(['c%d' % i, e, e, [['c%d' % (i + 1), 'x']]] if i < (L + 1) // 2 else ['c%d' % i, e, 'x', [['c%d' % (i + 1), e]]])
+    if rng.random() < 0.5:
+        delta.append(['c%d' % L, 'b', e, [['f', e]]])
+        F = ['f']
+    else:
+        F = ['c%d' % L]
+    for i in range(sib):
+        if rng.random() < 0.5:
+            delta.append(['d%d' % i, e, e, [['d%d' % i, e]]])       # a sibling with a silent self-loop
+    return {'kind': 'pda', 'Q': Q, 'Sigma': ['a', 'b'], 'Gamma': ['x'], 'delta': delta, 'q0': 's0', 'F': F, 'eps': e}
